@@ -213,7 +213,16 @@ theorem normalize_idem (E : Env) (u : Uri) : normalize E (normalize E u) = norma
   · simp [normalize]
   · simp [normalize]
   · simp [normalize, lowerBytes_idem]
-  · simp [normalize]
+  · simp only [normalize, lowerBytes_idem]
+    cases u.port with
+    | some p => rfl
+    | none =>
+      simp only []
+      by_cases hs : (lowerBytes u.scheme).isEmpty = true
+      · simp only [hs, if_true]
+        cases hc : Option.map (fun x : Bytes × Nat => x.2) u.cls <;> simp [hc]
+      · simp only [hs, Bool.false_eq_true, if_false]
+        cases hc : Option.map (fun x : Bytes × Nat => x.2) (lookupScheme E.schemes (lowerBytes u.scheme)) <;> simp [hc]
   · simp only [normalize, lowerBytes_idem] at hp ⊢; exact hp
   · simp [normalize]
   · simp [normalize]
@@ -237,6 +246,18 @@ theorem normalize_port_explicit (E : Env) (u : Uri) (h : u.scheme ≠ []) :
     rw [lowerBytes_isEmpty]; cases hs : u.scheme <;> simp_all
   simp only [normalize, Uri.portProp, Uri.PORT, this]
   cases u.port <;> simp
+  cases Option.map (fun x : Bytes × Nat => x.2) (lookupScheme E.schemes (lowerBytes u.scheme)) <;> rfl
+
+/-- ... and it is explicit in the stored components, not only through the `port` property: after normalisation the port
+    component of the eight-tuple (what `==` compares) is the effective port (the F64 repair) -/
+theorem normalize_port_component (E : Env) (u : Uri) : (normalize E u).port = (normalize E u).portProp := by
+  simp only [normalize, Uri.portProp, Uri.PORT]
+  cases u.port with
+  | some p => rfl
+  | none =>
+    simp only []
+    generalize (if (lowerBytes u.scheme).isEmpty = true then u.cls else lookupScheme E.schemes (lowerBytes u.scheme)) = c
+    cases c <;> rfl
 
 /-- non-vacuity and the order-independence it is about: port assigned before the scheme, scheme in upper case -/
 theorem normalize_port_witness :
@@ -244,7 +265,8 @@ theorem normalize_port_witness :
     let E : Env := { schemes := S, hostSafe := fun _ => false, querySafe := fun _ => false }
     let u := assign S (assign S (assign S {} "host".toUTF8.toList "h".toUTF8.toList) "port".toUTF8.toList [])
       "scheme".toUTF8.toList "HTTP".toUTF8.toList
-    u.portProp = none ∧ (normalize E u).portProp = some 80 ∧ (normalize E u).scheme = "http".toUTF8.toList := by
+    u.portProp = none ∧ (normalize E u).portProp = some 80 ∧ (normalize E u).port = some 80
+      ∧ (normalize E u).scheme = "http".toUTF8.toList := by
   decide +kernel
 
 /-! ### equality -/
